@@ -6,3 +6,4 @@ import RosuModel.Props.C19Curve
 import RosuModel.Props.C19Ieee
 import RosuModel.Props.C19IeeePos
 import RosuModel.Props.C19IeeeBound
+import RosuModel.Props.C19IeeeErr
